@@ -168,8 +168,10 @@ def _is_protocol(t):
 
 def _signatures(run):
     project = run.project
-    fs = common.splice(project, project.fn(MT + ".MultiTanProcessor._tile_serial"))
-    fw = common.splice(project, project.fn(MT + "._mp_tile_worker"))
+    atomic = ("update_image", "update_into_maskable_buffer", "flip_parity", "get_parity_sign", "generate_populated_positions", "read_image", "write_image",
+              "progress_bar", "images", "get_default_vertical_parity_sign")
+    fs = common.flatten(project, project.fn(MT + ".MultiTanProcessor._tile_serial"), keep=atomic)
+    fw = common.flatten(project, project.fn(MT + "._mp_tile_worker"), keep=atomic)
     run.note_func(fs, fw)
     ss, err_s, rs = _signature(project, fs, "serial")
     sw, err_w, rw = _signature(project, fw, "worker")
@@ -374,7 +376,12 @@ def _r5_pixelization(run):
     project = run.project
     f = project.fn(MT + ".MultiTanProcessor.compute_global_pixelization")
     run.note_func(f)
-    ev = sym.make_evaluator(project, MT, [])
+    # (per-input placement may be split into helpers of the processor / the descriptor class)
+    ev = sym.make_evaluator(project, MT, [], inline_local=True)
+    ev.self_class = MT + ".MultiTanProcessor"
+    ev.inline_resolved = True
+    ev.no_inline = ("compute_for_subimage", "count_populated_positions", "generate_populated_positions", "StudyTiling", "images", "descriptions",
+                    "get_parity_sign", "flip_parity", "to_header", "update_image", "read_image", "write_image")
     r = ev.run(f.node)
     # (a) sub-image geometry handed to compute_for_subimage
     cfs = [e for e in r.events if e.kind == "call" and e.term[1][0] == "attr" and e.term[1][2] == "compute_for_subimage"]
